@@ -124,6 +124,13 @@ Directed ==
   \cup { pre \o body \o <<f>> : pre \in {<<27, 91>>, <<155>>},
                                  body \in { <<>>, <<53>>, <<53, 59, 49, 50>>, <<59>>, <<63, 53>>, <<53, 59>>, <<59, 59, 55>> },
                                  f \in CsiFinals \cup Unsupported }
+\* parameter values around every width a parser might narrow to (8, 15/16, 24, 31/32, 40, 48, 53, 63/64, 96, 128 bits) and around the
+\* cap: the documented value is min(n, 9999) whatever the digits (generated by hand from 2^k - 1, 2^k, 2^k + 5, ...)
+PowDigits == { <<50, 53, 53>>, <<50, 53, 54>>, <<50, 53, 55>>, <<57, 57, 57, 56>>, <<57, 57, 57, 57>>, <<49, 48, 48, 48, 48>>, <<51, 50, 55, 54, 55>>, <<51, 50, 55, 54, 56>>, <<51, 50, 55, 55, 51>>, <<54, 53, 53, 51, 53>>, <<54, 53, 53, 51, 54>>, <<54, 53, 53, 52, 49>>, <<49, 54, 55, 55, 55, 50, 49, 57>>, <<50, 49, 52, 55, 52, 56, 51, 54, 52, 55>>, <<50, 49, 52, 55, 52, 56, 51, 54, 52, 56>>, <<50, 49, 52, 55, 52, 56, 51, 54, 53, 51>>, <<52, 50, 57, 52, 57, 54, 55, 50, 57, 53>>, <<52, 50, 57, 52, 57, 54, 55, 50, 57, 54>>, <<52, 50, 57, 52, 57, 54, 55, 51, 48, 49>>, <<52, 50, 57, 52, 57, 55, 55, 50, 57, 52>>, <<49, 50, 56, 56, 52, 57, 48, 49, 56, 57, 53>>, <<49, 48, 57, 57, 53, 49, 49, 54, 50, 55, 55, 55, 55>>, <<50, 56, 49, 52, 55, 52, 57, 55, 54, 55, 49, 48, 54, 53, 56>>, <<57, 48, 48, 55, 49, 57, 57, 50, 53, 52, 55, 52, 48, 57, 57, 51>>, <<57, 50, 50, 51, 51, 55, 50, 48, 51, 54, 56, 53, 52, 55, 55, 53, 56, 48, 55>>, <<57, 50, 50, 51, 51, 55, 50, 48, 51, 54, 56, 53, 52, 55, 55, 53, 56, 48, 56>>, <<57, 50, 50, 51, 51, 55, 50, 48, 51, 54, 56, 53, 52, 55, 55, 53, 56, 49, 51>>, <<49, 56, 52, 52, 54, 55, 52, 52, 48, 55, 51, 55, 48, 57, 53, 53, 49, 54, 49, 53>>, <<49, 56, 52, 52, 54, 55, 52, 52, 48, 55, 51, 55, 48, 57, 53, 53, 49, 54, 49, 54>>, <<49, 56, 52, 52, 54, 55, 52, 52, 48, 55, 51, 55, 48, 57, 53, 53, 49, 54, 50, 49>>, <<49, 56, 52, 52, 54, 55, 52, 52, 48, 55, 56, 48, 48, 52, 53, 49, 56, 57, 49, 55>>, <<49, 48, 48, 48, 48, 48, 48, 48, 48, 48, 48, 48, 48, 48, 48, 48, 48, 48, 48, 48>>, <<49, 48, 48, 48, 48, 48, 48, 48, 48, 48, 48, 48, 48, 48, 48, 48, 48, 48, 48, 48, 53>>, <<55, 57, 50, 50, 56, 49, 54, 50, 53, 49, 52, 50, 54, 52, 51, 51, 55, 53, 57, 51, 53, 52, 51, 57, 53, 48, 51, 52, 49>>, <<51, 52, 48, 50, 56, 50, 51, 54, 54, 57, 50, 48, 57, 51, 56, 52, 54, 51, 52, 54, 51, 51, 55, 52, 54, 48, 55, 52, 51, 49, 55, 54, 56, 50, 49, 49, 52, 54, 49>> }
+PowParams ==
+  { <<27, 91>> \o d \o <<f>> : d \in PowDigits, f \in {72, 109, 65} }
+  \cup { <<27, 91, 53, 59>> \o d \o <<72>> : d \in PowDigits }
+  \cup { <<155, 63>> \o d \o <<108>> : d \in PowDigits }
 \* long inputs: many parameters, zero-padded numbers, long payloads (buffer-size assumptions)
 ManyParams(n, fin) == <<27, 91>> \o FoldLeft(LAMBDA acc, i : acc \o (IF i > 1 THEN <<59>> ELSE <<>>) \o <<48 + (i % 10)>>, <<>>, [i \in 1..n |-> i]) \o <<fin>>
 LongOnes ==
@@ -176,7 +183,7 @@ OscSystematic(n) ==
 Seeds == CASE Family = "graph"    -> {<<>>}
            [] Family = "oscx"     -> OscSystematic(MaxLen)
            [] Family = "pairs"    -> Pairs \cup Triples
-           [] Family = "directed" -> Directed \cup LongOnes
+           [] Family = "directed" -> Directed \cup LongOnes \cup PowParams
            [] Family = "osc"      -> OscStrings \cup OscLong
 
 -----------------------------------------------------------------------------
